@@ -20,11 +20,39 @@ FAMILIES = {
     'sess1h': dict(mode='session', pool_size=1, depth=6, maxmsgs=3, probes_last=True),
     'tx1': dict(mode='transaction', pool_size=1, depth=5, maxmsgs=3, probes_last=False),
     'tx1v': dict(mode='transaction', pool_size=1, depth=5, maxmsgs=3, probes_last=True, extras=('vanish',)),
+    # cancel requests made while the server's listener is down for a moment
+    'tx1c': dict(mode='transaction', pool_size=1, depth=6, maxmsgs=1, probes_last=True, extras=('ldown',)),
+    # two clients with two connections, a few message kinds, long histories (clients exchange connections): too many
+    # for enumeration, TLC samples them (simulation mode)
+    'tx2s': dict(mode='transaction', pool_size=2, depth=9, maxmsgs=4, probes_last=False, actors=('A', 'B'),
+                 actor_kinds=('begin', 'commit'), simulate=150000),
 }
+# a family with extra environment steps serves only the deviations that need those steps
+ONLY_FOR = {'tx1c': {'cancel_retried_later'}, 'tx2s': {'claim_unmaps_previous'}}
+NEEDS = {'cancel_retried_later': {'tx1c'}, 'claim_unmaps_previous': {'tx2s'}}
+# what a history must contain besides breaking the model's invariant, so that the defect shows on the wire
+# (a late cancel request is observable once the connection has served another client)
+def _cancel_after_bad(steps):
+    """a client whose map entry is missing asks for a cancel"""
+    unmapped = []
+    for x in steps:
+        if x['op'] == 'state':
+            unmapped = x.get('unmapped', [])
+        if x['op'] == 'cancel' and x['c'] in unmapped:
+            return True
+    return False
+
+
+USEFUL = {'cancel_retried_later': lambda steps: any(x['op'] == 'send' and x['c'] != 'A' for x in steps),
+          # (a missing map entry shows when the client asks for a cancel)
+          'claim_unmaps_previous': _cancel_after_bad}
+# deviations that change nothing but the cancel map (which no other variable depends on): what the design expects of
+# clients and connections in such a history is what the deviating run shows, so sampled histories need no design twin
+SAME_EXPECTATIONS = {'claim_unmaps_previous'}
 DEVS = ["putback_reuses_unclean", "copydone_single_recv", "copydone_no_copy_check", "set_in_tx_not_marked",
         "reset_before_rollback", "timeout_keeps_connection", "failed_tx_counts_as_idle", "prepare_not_marked",
         "no_rollback_at_checkin", "no_reset_at_checkin", "map_kept_after_release", "early_return_leaks_guard",
-        "error_keeps_copy_mode", "timeout_marks_bad_after_write", "local_batch_keeps_server", "reset_clears_dirty", "cleanup_in_copy_reuses"]
+        "error_keeps_copy_mode", "timeout_marks_bad_after_write", "local_batch_keeps_server", "reset_clears_dirty", "cleanup_in_copy_reuses", "cancel_retried_later", "claim_unmaps_previous"]
 PER = 40
 
 
@@ -40,11 +68,13 @@ def run(fam, dev):
     f = FAMILIES[fam]
     cfg = 'Gen_PoolCore_w_%s.cfg' % fam
     text = props_pool.gen_cfg_text(f['mode'], f['pool_size'], f['depth'], maxmsgs=f['maxmsgs'], probes_last=f['probes_last'],
-                                   extras=f.get('extras', ()))
+                                   extras=f.get('extras', ()), actors=f.get('actors', ('A',)),
+                                   actor_kinds=f.get('actor_kinds', props_pool.ALL_KINDS))
     text = text.replace('Dev = {}', 'Dev = {%s}' % (('"%s"' % dev) if dev else ''))
     with open(os.path.join(tlc.SPEC, cfg), 'w') as fh:
         fh.write(text)
-    res = tlc.run_tlc('Gen_PoolCore', cfg, workers=12, timeout=3000, xmx='24g')
+    res = tlc.run_tlc('Gen_PoolCore', cfg, workers=12, timeout=3000, xmx='24g', simulate=f.get('simulate'),
+                      depth=150 if f.get('simulate') else None, seed=7 if f.get('simulate') else None)
     os.unlink(os.path.join(tlc.SPEC, cfg))
     if res.rc != 0:
         raise SystemExit('TLC failed for %s/%s: %s' % (fam, dev, res.errors()[:3]))
@@ -65,18 +95,26 @@ def main():
                     if d not in only:
                         out.append(dict(w, witness_of=d))
     for fam in FAMILIES:
+        fam_devs = [d for d in devs if (fam not in ONLY_FOR or d in ONLY_FOR[fam]) and (d not in NEEDS or fam in NEEDS[d])]
+        if not fam_devs:
+            continue
         design = {}
-        for sc in run(fam, None):
-            design.setdefault(key(sc['steps']), sc['steps'])
+        if not all(d in SAME_EXPECTATIONS for d in fam_devs):
+            for sc in run(fam, None):
+                design.setdefault(key(sc['steps']), sc['steps'])
         print(fam, 'design behaviours', len(design), flush=True)
-        for dev in devs:
+        for dev in fam_devs:
             seen_shapes = {}
             n = 0
             for sc in run(fam, dev):
                 if not sc['bad']:
                     continue
                 k = key(sc['steps'])
+                if dev in SAME_EXPECTATIONS:
+                    design.setdefault(k, [dict(x, bad=False, unmapped=[]) if x['op'] == 'state' else x for x in sc['steps']])
                 if k not in design:
+                    continue
+                if dev in USEFUL and not USEFUL[dev](sc['steps']):
                     continue
                 sh = shape(sc['steps'])
                 if seen_shapes.get(sh, 0) >= 2:
